@@ -68,9 +68,7 @@ func newVPConn(in []byte) *vpConn {
 func (c *vpConn) Read(p []byte) (int, error) {
 	c.reads++
 	vpAssume(c.reads <= c.maxReads) // stated schedule bound
-	if !c.armed {
-		c.readsUnarmed++ // no finite deadline is in force for this read
-	}
+	c.readsUnarmed += vpCount(!c.armed) // no finite deadline is in force for this read
 	c.log.add("read")
 	if c.timeouts > 0 {
 		c.readsAfterTimeout++
@@ -132,13 +130,12 @@ func (c *vpConn) SetDeadline(t time.Time) error      { return nil }
 func (c *vpConn) SetWriteDeadline(t time.Time) error { return nil }
 func (c *vpConn) SetReadDeadline(t time.Time) error {
 	c.deadlineSet++
-	c.armed = !t.IsZero() // a deadline is absolute: it stays in force until it is changed
-	if t.IsZero() {
-		c.zeroDeadlines++
-	} else if d := time.Until(t); d <= 0 || d > 16*time.Second {
-		// the loop arms now+15s: anything in the past or further away is not the intended deadline
-		c.badDeadlines++
-	}
+	zero := t.IsZero()
+	c.armed = !zero // a deadline is absolute: it stays in force until it is changed
+	c.zeroDeadlines += vpCount(zero)
+	// the loop arms now+15s: anything in the past or further away is not the intended deadline
+	d := time.Until(t)
+	c.badDeadlines += vpCount(vpAnd(!zero, vpOr(d <= 0, d > 16*time.Second)))
 	return nil
 }
 
